@@ -947,6 +947,46 @@ pub fn run(rec: &mut Recorder, cases_path: &str, thorough: bool, seed: u64, kind
             total += 1;
         }
     }
+    // C13 "must decode to exactly 33 bytes", "round-trip through their text form": every backend x id kind x body length 0..40
+    if kinds.iter().any(|k| k == "keyid") {
+        fn offer<B: Backend>(rec: &mut Recorder, rng: &mut Prng, total: &mut u64) {
+            use paseto_core::paserk::KeyId;
+            use paseto_core::version::{PkePublic, PkeSecret, Secret};
+            fn one<B: Backend, K: paseto_core::key::KeyType>(rec: &mut Recorder, label: &str, kind: &str, body: &[u8], total: &mut u64) {
+                let text = format!("k{}.{}.{}", B::VER, label, crate::b64::enc(body));
+                let r = catch_unwind(AssertUnwindSafe(|| text.parse::<KeyId<B::V, K>>().map(|k| (k.to_string(), k.as_bytes().to_vec()))));
+                let (ok, back, bytes_back, panic) = match r {
+                    Ok(Ok((t, b))) => (true, t == text, b[..] == body[..], false),
+                    Ok(Err(_)) => (false, false, false, false),
+                    Err(_) => (false, false, false, true),
+                };
+                rec.emit(json!({"fn":"idparse","be":B::NAME,"id_kind":kind,"len":body.len(),"ok":ok,"text_back":back,"bytes_back":bytes_back,"panic":panic}));
+                *total += 1;
+            }
+            for len in 0..=40usize {
+                for fill in 0..2 {
+                    let body = if fill == 0 { rng.bytes(len) } else { vec![0u8; len] };
+                    one::<B, Local>(rec, "lid", "lid", &body, total);
+                    one::<B, Public>(rec, "pid", "pid", &body, total);
+                    one::<B, Secret>(rec, "sid", "sid", &body, total);
+                    one::<B, PkePublic>(rec, "pid", "pkepid", &body, total);
+                    one::<B, PkeSecret>(rec, "sid", "pkesid", &body, total);
+                }
+            }
+        }
+        let mut rng = Prng::new(seed, "idparse");
+        for be in ALL {
+            match be {
+                "v1" => offer::<V1>(rec, &mut rng, &mut total),
+                "v2" => offer::<V2>(rec, &mut rng, &mut total),
+                "v3" => offer::<V3>(rec, &mut rng, &mut total),
+                "v3lc" => offer::<V3Lc>(rec, &mut rng, &mut total),
+                "v4" => offer::<V4>(rec, &mut rng, &mut total),
+                "v4na" => offer::<V4Na>(rec, &mut rng, &mut total),
+                _ => {}
+            }
+        }
+    }
     // the evaluator's own non-cryptographic primitive, held to Ctr.tla
     let mut rng = Prng::new(seed, "inc128");
     for k in 0..400u64 {
